@@ -57,25 +57,38 @@ def gen_scenario(ctx, k):
             # two 30-byte requests that are never answered: the second one is held, everything later queues behind it
             sc.add(call('bidib_send_string_get', ad[0], ad[1], ad[2], 0, 0, 0), call('bidib_send_string_get', ad[0], ad[1], ad[2], 0, 1, 0), 'flush', 'quiesce')
     n = rng.randrange(5, 40)
+    MALFORMED = [bytes([9, 0, 1, 0xA0]), bytes([2, 0, 0]), bytes([200]), bytes([5, 1, 2, 3, 4, 5]), bytes([4, 0, 0, 0xA0]), bytes([0])]
     for i in range(n):
-        src = rng.choice(conn + [None]) if conn else None
-        if src is None:
-            ad = (250, 0, 0)          # outside the address ranges the tree generator uses
-            b = {'segments': []}
-        else:
-            b = src
-            ad = m.addr[b['id']]
-        kind, data = gen_report(rng, b)
-        blk = False
-        if blocked_board is not None and src is not None:
-            ba = m.addr[blocked_board['id']]
-            if variant == 'stall':
-                from ..flow import Flow
-                blk = tuple(ba) in Flow.ancestors_or_self(tuple(ad))      # a stalled node blocks its whole subtree
+        # one packet: usually one report, sometimes several reports / other messages, sometimes a malformed message at its end
+        nm = 1 if rng.random() < 0.6 else rng.randrange(2, 5)
+        reports, payload = [], []
+        for _ in range(nm):
+            src = rng.choice(conn + [None]) if conn else None
+            if src is None:
+                ad = (250, 0, 0)          # outside the address ranges the tree generator uses
+                b = {'segments': []}
             else:
-                blk = tuple(ba) == tuple(ad)
-        cases.append((ad, kind, data, src['id'] if src else None, bool(src and cfggen.secack(src)), blk))
-        sc.add(f'mark c{i}', up(model.build_msg(ad, 0, C(kind), data)), 'quiesce')
+                b = src
+                ad = m.addr[b['id']]
+            if nm > 1 and rng.random() < 0.25:
+                payload.append(model.build_msg(ad, 0, C(rng.choice(['MSG_BM_CURRENT', 'MSG_SYS_PONG', 'MSG_BM_CONFIDENCE'])), bytes([250, 0, 0])))
+                continue
+            kind, data = gen_report(rng, b)
+            blk = False
+            if blocked_board is not None and src is not None:
+                ba = m.addr[blocked_board['id']]
+                if variant == 'stall':
+                    from ..flow import Flow
+                    blk = tuple(ba) in Flow.ancestors_or_self(tuple(ad))      # a stalled node blocks its whole subtree
+                else:
+                    blk = tuple(ba) == tuple(ad)
+            reports.append((ad, kind, data, src['id'] if src else None, bool(src and cfggen.secack(src)), blk))
+            payload.append(model.build_msg(ad, 0, C(kind), data))
+        tail = rng.choice(MALFORMED) if rng.random() < 0.12 else None
+        if tail is not None:
+            payload.append(tail)
+        cases.append((reports, tail is not None))
+        sc.add(f'mark c{i}', up(*payload), 'quiesce')
     sc.add(f'mark c{n}')
     if blocked_board is not None:
         ad = m.addr[blocked_board['id']]
@@ -101,33 +114,45 @@ def evaluate(ctx, r, cfg, nodes, cases, variant, blocked, meta):
     mirror_types = {C(v) for v in MIRROR.values()}
     owed = []
     nmir = 0
-    for i, (ad, kind, data, bid, sec, blk) in enumerate(cases):
+    for i, (reports, malformed_tail) in enumerate(cases):
         evs = seen.get(i, [])
         mir = [(tuple(e['addr']), e['type'], bytes.fromhex(e['data'])) for e in evs if e.get('e') == 'txm' and e['type'] in mirror_types]
-        exp = (tuple(ad), C(MIRROR[kind]), data)
-        site = kind.replace('MSG_BM_', '').lower()
-        if not sec:
-            if mir:
-                ctx.violation('mirror-without-secack', site, f'report {kind} {data.hex()} from {ad} (board {bid}, SecAck not enabled) was answered with {[(a, hex(t), d.hex()) for a, t, d in mir]}',
-                              r.scenario, r.flavour, meta)
-                return
+        exp = []
+        for (ad, kind, data, bid, sec, blk) in reports:
+            if sec and blk:
+                owed.append((tuple(ad), C(MIRROR[kind]), data))
+            elif sec:
+                exp.append((tuple(ad), C(MIRROR[kind]), data, kind, bid))
+        desc = '; '.join(f'{kind} {data.hex()} from {ad} (board {bid}, SecAck {"on" if sec else "off"}{", blocked" if blk else ""})' for (ad, kind, data, bid, sec, blk) in reports)
+        site = (reports[0][1].replace('MSG_BM_', '').lower() if len(reports) == 1 else 'multi-message-packet') + ('+malformed-tail' if malformed_tail else '')
+        if malformed_tail and not mir:
+            # a packet whose last message is malformed may be rejected as a whole (then nothing of it is mirrored - and a mirror that shows up
+            # later would be reported in that later window); if the library does process the reports in front, the mirrors are due now
             continue
-        if blk:
-            if mir:
-                ctx.violation('mirror-into-blocked-node', site, f'board {bid} is {variant}-blocked but a mirror reached the wire', r.scenario, r.flavour, meta)
-                return
-            owed.append(exp)
-            continue
-        if len(mir) != 1:
-            cls = 'mirror-missing' if not mir else 'mirror-duplicated'
-            ctx.violation(cls, site, f'report {kind} {data.hex()} from SecAck board {bid} at {ad}: {len(mir)} mirror messages on the wire at the next quiescent point (no flush issued)',
-                          r.scenario, r.flavour, meta)
+        if len(mir) != len(exp):
+            if not exp:
+                cls = 'mirror-without-secack' if any(not r_[4] for r_ in reports) else 'mirror-into-blocked-node' if reports else 'mirror-without-report'
+            else:
+                cls = 'mirror-missing' if len(mir) < len(exp) else 'mirror-duplicated'
+            ctx.violation(cls, site, f'packet with [{desc}]: {len(mir)} mirror messages on the wire at the next quiescent point (no flush issued), expected {len(exp)}: '
+                          f'{[(a, hex(t), d.hex()) for a, t, d in mir][:4]}', r.scenario, r.flavour, meta)
             return
-        if mir[0] != exp:
-            if ctx.violation('mirror-payload', site, f'report {kind} {data.hex()} from {ad}: mirror is type {mir[0][1]:#x} data {mir[0][2].hex()} to {mir[0][0]}, expected type {exp[1]:#x} data {exp[2].hex()}',
-                             r.scenario, r.flavour, meta):
-                return
-        nmir += 1
+        for g, e in zip(mir, exp):
+            if g != e[:3]:
+                if ctx.violation('mirror-payload', e[3].replace('MSG_BM_', '').lower(), f'report {e[3]} {e[2].hex()} from {e[0]}: mirror is type {g[1]:#x} data {g[2].hex()} to {g[0]}, '
+                                 f'expected type {e[1]:#x} data {e[2].hex()}', r.scenario, r.flavour, meta):
+                    return
+        nmir += len(mir)
+        if len(reports) > 1:
+            ctx.count('multi_report_packets')
+        if malformed_tail:
+            ctx.count('packets_with_malformed_tail_mirrored')
+    if blocked is None:
+        # nothing is owed: no mirror may show up later (released by the flush of bidib_stop, say)
+        late = [e for k_ in (len(cases), len(cases) + 1) for e in seen.get(k_, []) if e.get('e') == 'txm' and e['type'] in mirror_types]
+        if late:
+            ctx.violation('mirror-delayed', 'until-later-flush', f'{len(late)} mirror message(s) reached the wire only at shutdown: they had been waiting for a flush', r.scenario, r.flavour, meta)
+            return
     if blocked is not None:
         evs = seen.get(len(cases), [])
         mir = [(tuple(e['addr']), e['type'], bytes.fromhex(e['data'])) for e in evs if e.get('e') == 'txm' and e['type'] in mirror_types]
@@ -152,7 +177,7 @@ def evaluate(ctx, r, cfg, nodes, cases, variant, blocked, meta):
         ctx.nontrivial.add(meta['digest'])
 
 def run(ctx):
-    ctx.rule = ('1-4 boards with feature 0x03 absent / 0 / >0, 5-40 occupied/free/multiple/position reports with arbitrary detector numbers and bitmap sizes 8..128 from '
+    ctx.rule = ('1-4 boards with feature 0x03 absent / 0 / >0, 5-40 packets of occupied/free/multiple/position reports (40 % of the packets carry 2-4 messages from several nodes, 12 % end in a malformed message) with arbitrary detector numbers and bitmap sizes 8..128 from '
                 'connected boards and an unknown node, no flush step; variants: the reporting board stalled, or its queue blocked by a held 30-byte request. '
                 'non-trivial = distinct scenario in which >=1 mirror was checked')
     ctx.assumptions = ['a report counts from the quiescent point after it was fed', 'mirror messages have no response, so only a stall or a held message in front can delay them']
@@ -161,5 +186,5 @@ def run(ctx):
     for j, r in zip(jobs, res):
         meta = {'digest': hashlib.sha1(j[0].encode()).hexdigest()[:12], 'variant': j[4]}
         evaluate(ctx, r, j[1], j[2], j[3], j[4], j[5], meta)
-    ctx.sample({'variant': jobs[0][4], 'reports': [(list(c[0]), c[1], c[2].hex(), c[4]) for c in jobs[0][3][:6]]})
+    ctx.sample({'variant': jobs[0][4], 'packets': [[(list(c[0]), c[1], c[2].hex(), c[4]) for c in rep] + (['malformed tail'] if mt else []) for rep, mt in jobs[0][3][:6]]})
     return ctx.finish(min_eval=50, min_nontrivial=20)
